@@ -1,7 +1,7 @@
 """Contracts for the command plugins and the drivers they call: C04, C05, C09, C10, C15, C16, C17."""
 import z3
 from pyvc import ty as T
-from pyvc.core import Loop, V, Unsupported
+from pyvc.core import Loop, V, Unsupported, Exc
 
 
 def install(eng):
@@ -33,6 +33,48 @@ def install(eng):
                       "(Workflow._add_target, verified under C19)")
     eng.contract("gwf.core:CachedFilesystem.__init__", params={}, returns=Fs, trusted=True, pure=True,
                  note="attrs-generated constructor: an empty stat cache = a fresh consistent snapshot")
+    # ---- CachedFilesystem is verified against the Fs interface. Model: os.stat(p) raises FileNotFoundError iff the
+    # file is absent and otherwise returns an object whose st_mtime is the file's modification time, both functions of
+    # the path while one command runs (ASSUMPTION: nobody else changes the files meanwhile; the cache is what keeps the
+    # answers consistent if that fails, which is outside this model). For this class the interface functions
+    # fs_exists / fs_mtime ARE those two functions (group `cachedfs`). Class invariant: every cached entry is the stat
+    # answer for its own key.
+    CF = T.ObjT("CachedFilesystem", root="Fs")
+    OR = T.Opt(T.REAL)
+    eng.classes["Fs"].fields["_cache"] = T.DictT(vc.Path, OR)
+    f_statx = z3.Function("stat_exists", vc.Path.sort(), z3.BoolSort())
+    f_statm = z3.Function("stat_mtime", vc.Path.sort(), z3.RealSort())
+    fs_, p_ = vc.Fs.fresh("fs"), vc.Path.fresh("p")
+    eng.axiom("cachedfs", z3.ForAll([fs_, p_], z3.And(vc.f_exists(fs_, p_) == f_statx(p_), vc.f_mtime(fs_, p_) == f_statm(p_))))
+    StatT = T.ObjT("StatResult")
+    eng.cls("StatResult", consts={"st_mtime": T.REAL})
+    f_stm = eng.const_fn("StatResult", "st_mtime", T.REAL)
+
+    def r_stat(e, args, kw, st, sink, n):
+        pth = e.coerce(args[0], vc.Path, n)
+        missing = z3.Not(f_statx(pth.z))
+        if e.feasible(st, missing):
+            sink.append((st.assume(missing), Exc(FileNotFoundError)))
+        r, st = e.fresh(StatT, "st", st)
+        yield st.assume(f_statx(pth.z), f_stm(r.z) == f_statm(pth.z)), r
+
+    eng.rules[__import__("os").stat] = r_stat
+    CINV = ["all(implies(self._cache[k] is None, not fs_exists(self, k)) and "
+            "implies(self._cache[k] is not None, fs_exists(self, k) and the(self._cache[k]) == fs_mtime(self, k)) "
+            "for k in self._cache)"]
+    eng.contract("gwf.core:CachedFilesystem._lookup_file", self_type=CF, params={"self": CF, "path": vc.Path}, returns=OR,
+                 requires=CINV, modifies=["self._cache"], cover_hints=["not any(True for k in self._cache)"],
+                 ensures=CINV + ["(result is None) == (not fs_exists(self, path))",
+                                 "implies(result is not None, the(result) == fs_mtime(self, path))"],
+                 uses=["cachedfs"], serves=["C01", "C03", "C04"])
+    eng.contract("gwf.core:CachedFilesystem.exists", self_type=CF, params={"self": CF, "path": vc.Path}, returns=T.BOOL,
+                 requires=CINV, modifies=["self._cache"], ensures=CINV + ["result == fs_exists(self, path)"],
+                 uses=["cachedfs"], serves=["C01", "C03", "C04"])
+    eng.contract("gwf.core:CachedFilesystem.changed_at", self_type=CF, params={"self": CF, "path": vc.Path}, returns=T.REAL,
+                 requires=CINV, modifies=["self._cache"],
+                 ensures=CINV + ["result == fs_mtime(self, path)", "fs_exists(self, path)"],
+                 raises={"FileNotFoundError": {"cond": "not fs_exists(self, path)", "ensures": CINV}},
+                 uses=["cachedfs"], serves=["C01", "C03", "C04"])
     DISKT = ["ghost:disk_exists", "ghost:disk_valid", "ghost:disk_tracked"]
     eng.contract(
         "gwf.backends.base:create_backend", params={"name": T.Atom("BackendName"), "working_dir": vc.Path,
